@@ -103,6 +103,16 @@ class C04(core.Prop):
                         for el in els[1:]:
                             el['ord'] = 'o%d' % el['v']
                         out.append(s)
+        # the same annotation form on two nodes (the two tokens can be spelled identically: caches, shared defaults)
+        for form in ('free', 'q_free', 'free_uc', 'wq_kw'):
+            for base in gg.tree_shapes(2, max_nest=1) + (gg.tree_shapes(3, max_nest=1) if tier != 'quick' else []):
+                s = gg.copy.deepcopy(base)
+                els = list(gg.elems(s['chain']))
+                els[0]['ann'] = form
+                els[-1]['ann'] = form
+                for el in els[1:]:
+                    el['ord'] = 'o%d' % el['v']
+                out.append(s)
         # longer names
         for nl in (2, 3):
             s = gg.copy.deepcopy(gg.tree_shapes(3, 1)[0])
